@@ -64,6 +64,15 @@ var hand = []string{
 	"s = \"s\"\np = &s\n*p = \"t\"\n[s, \"s\"]",
 	"x = 1\ny = x\ny++\n[x, y, 1]",
 	"a = [1, 2, 3]\nb = a\nb[0] = 9\n[a[0], 1]",
+	// COMPUTED small integers (they come from the interpreter's value cache, not
+	// from a literal) reached through pointers, also through a host function
+	"a = 2 + 3\np = &a\n*p = a + 1\n[a, *p, 2 + 3]",
+	"n = 5 * 2\nq = &n\n*q = 1000\n[n, 5 * 2, 7 + 3, len(\"0123456789\")]",
+	"i = 0\ni++\nr = &i\n*r = 77\n[i, 0 + 1]",
+	"z = 1 - 2\nw = &z\n*w = 9\n[z, 1 - 2, 0 - 1]",
+	"k = 4094 + 1\nu = &k\n*u = 3\n[k, 4094 + 1, 4096 - 1]",
+	// struct values of one type made twice: container fields must be distinct objects
+	"a = make(struct { M map[string]int64, N int64 })\nb = make(struct { M map[string]int64, N int64 })\na.M[\"x\"] = 1\nb.M[\"y\"] = 2\n[len(a.M), len(b.M)]",
 	// import hands out a copy of the package table
 	"a = import(\"strings\")\nold = a.ToLower\na.ToLower = a.ToUpper\nb = import(\"strings\")\n[a.ToLower(\"Ab\"), b.ToLower(\"Ab\")]",
 	"a = import(\"sort\")\na.Ints = 5\nb = import(\"sort\")\nx = [3, 1, 2]\n[a.Ints]",
@@ -169,7 +178,7 @@ func finish(obs *irrun.Obs, ctx *stepctx.Ctx, call func() (interface{}, error)) 
 }
 
 // canary: the process-wide values every run can reach must be pristine
-const canarySrc = "[nil, true, false, 1, 0, -1, 4095, 1 + 1, \"s\", nil == nil, !true]"
+const canarySrc = "[nil, true, false, 1, 0, -1, 4095, 1 + 1, \"s\", nil == nil, !true, 2 + 3, 5 * 2, 0 + 1, 1 - 2, 4094 + 1, 0 * 1, len(make(struct { M map[string]int64, N int64 }).M)]"
 
 var canaryWant string
 
@@ -417,7 +426,7 @@ func coverage(c *common.Ctx, r *common.Result) map[string]interface{} {
 		"schedules":                     r.Counts["schedules"],
 		"interleaved_programs":          r.Counts["interleaved_programs"],
 		"tree_dump_checks":              r.Counts["dump_checks"],
-		"rule": "corpus = 26 handcrafted programs aimed at the runtime data living next to the syntax (CallExpr.Func, literal values, the shared 1 of ++/--, cached small integers, nil/true/false reached through pointers, import tables) + the C08 control-flow corpus (depth<=2 quick / <=3 thorough) + the C09 try/defer corpus (depth<=1 / <=2); " +
+		"rule": "corpus = 32 handcrafted programs aimed at the runtime data living next to the syntax (CallExpr.Func, literal values, the shared 1 of ++/--, cached small integers, nil/true/false reached through pointers, import tables) + the C08 control-flow corpus (depth<=2 quick / <=3 thorough) + the C09 try/defer corpus (depth<=1 / <=2); " +
 			"sequential: each tree is parsed once, dumped by reflection (all fields, literal values, positions) and run 3 times on equal fresh environments, the dump is compared at every context poll and after every run, run k must equal run 1 (value, error status, probe trace), then a canary program on a fresh environment must still see pristine nil/true/false/small integers and package tables; " +
 			"interleaved: 2 (and 3) runs of one shared tree on separate environments as scheduler threads, every context poll a schedule point, all interleavings within preemption bound 2 (quick) / 3 (thorough), every run must equal the solo run; non-trivial = produced a probe trace or a non-nil value; states = programs, transitions = scheduler steps + dump comparisons",
 	}
